@@ -18,13 +18,21 @@ RULE = ('Hypothesis draws (fchans,tchans,df,dt,fch1,orientation,t_start,construc
 ASSUMPTIONS = ['closed forms are evaluated in double precision with a 64-ulp(fmax) tolerance on '
                'frequencies and 4 ulp on times', 'exact half-channel ties are not generated']
 REQUIRED_CLASSES = ['route=sizes', 'route=shape', 'route=data', 'route=from_data', 'route=units',
-                    'route=backend', 'asc', 'desc']
+                    'route=backend', 'asc', 'desc', 'product_sized']
 
 
 @st.composite
 def strategy_(draw, tier):
     big = tier == 'thorough'
     g = draw(gen.geometry(max_fchans=512 if big else 96))
+    if draw(st.integers(0, 19)) == 0:
+        # product-sized frames: 2**16 .. 2**20 channels (axes and conversions only, no injection)
+        g['fchans'] = draw(st.sampled_from([2 ** 16, 2 ** 16 + 1, 2 ** 20, 2 ** 20 - 3]))
+        g['tchans'] = draw(st.integers(1, 2))
+        g['fch1'] = min(max(g['fch1'], 4.0 * g['fchans'] * g['df'] + 1.0), g['df'] * 2.0 ** 40)
+        if g['fch1'] < 4.0 * g['fchans'] * g['df'] + 1.0:      # cannot satisfy both: shrink df
+            g['df'] = 1.0
+            g['fch1'] = 6e9
     deltas = draw(st.lists(st.tuples(st.integers(-5, g['fchans'] + 5), gen.finite(-0.49, 0.49)),
                            min_size=1, max_size=6))
     sig = dict(start=draw(gen.finite(-0.2, 1.2)), drift=draw(gen.finite(-3, 3)),
@@ -192,6 +200,8 @@ def run_case(case, ctx):
             obs.fail('twin_fs', f'{np.max(np.abs(np.asarray(tw.fs) - fs)) if np.asarray(tw.fs).shape == fs.shape else tw.fs.shape}')
         elif not np.array_equal(np.asarray(tw.ts), ts):
             obs.fail('twin_ts', '')
+        elif N > 4096:
+            obs.cls('product_sized')
         else:
             s = case['sig']
             width = s['width'] * df
